@@ -262,7 +262,12 @@ func e2eHandler(sc *e2eScenario) *connect.Handler {
 	if h, ok := e2eHandlers.Load(key); ok {
 		return h.(*connect.Handler)
 	}
-	opts := []connect.HandlerOption{connect.WithCompressMinBytes(sc.Hmin), connect.WithCodec(verifCodec{})}
+	// every handler also carries a recovery hook: it must stay invisible as long as nothing panics (if it ever runs,
+	// the call fails with this error instead of the scenario's outcome)
+	opts := []connect.HandlerOption{connect.WithCompressMinBytes(sc.Hmin), connect.WithCodec(verifCodec{}),
+		connect.WithRecover(func(_ context.Context, _ connect.Spec, _ http.Header, p any) error {
+			return connect.NewError(connect.CodeDataLoss, fmt.Errorf("verif: the recovery hook ran without a panic: %v", p))
+		})}
 	for _, name := range sc.Hpools {
 		if name == "gzip" { // registering the built-in name again moves it in the preference order
 			opts = append(opts, connect.WithCompression(name, newGzipD, newGzipC))
